@@ -85,7 +85,14 @@ def install(reg):
     reg.handlers["importlib.import_module"] = lambda I, a, k, n: {"array_api_compat.numpy": Mod("xp.numpy"), "array_api_compat.torch": Mod("xp.torch"), "jax.numpy": Mod("xp.jax"),
                                                                    "aspire.samples": Mod("aspire.samples")}.get(a[0].v, Mod(a[0].v))
     # np.stack of a list of columns -> matrix
-    reg.handlers["xp.stack"] = lambda I, a, k, n: Obj("Matrix", {"cols": PyList(list(I.iterate(a[0], n)))})
+    _prev_stack = reg.handlers.get("xp.stack")
+
+    def stack(I, a, k, n):
+        parts = list(I.iterate(a[0], n))
+        if _prev_stack is not None and parts and all(isinstance(t, Arr) and "lit" in t.meta for t in parts):
+            return _prev_stack(I, a, k, n)       # literal rows (transform bounds): exact model in pyvc.lib
+        return Obj("Matrix", {"cols": PyList(parts)})
+    reg.handlers["xp.stack"] = stack
     reg.obj_props["Matrix.T"] = lambda I, o, n: PyList(list(o.f["cols"].items))
     reg.obj_props["Matrix.shape"] = lambda I, o, n: Tup([IV(z3.Int("n_rows")), IV(len(o.f["cols"].items))])
     reg.obj_props["Matrix.ndim"] = lambda I, o, n: IV(2)
